@@ -182,6 +182,62 @@ func c07B64(l c07BLine) string {
 	return base64.StdEncoding.EncodeToString(append(h[:], l.sig...))
 }
 
+// c07ExpectBlock: the expected outcome of Open on text + "\n" + lines, from the property text alone.
+// known(k): k is a (unique) known key; good(l): l's signature bytes verify under l's key over the text.
+// bad is the key reported for "invalidsig" (the first known key, in line order, whose first line is bad).
+func c07ExpectBlock(lines []c07BLine, known func(c07Key) bool, good func(c07BLine) bool) (wantErr string, wantV, wantU []note.Signature, bad c07Key) {
+	seenK := map[c07Key]bool{}
+	seenL := map[string]bool{}
+	for i, l := range lines {
+		if i >= 100 { // the 101st signature line
+			return "malformed", nil, nil, bad
+		}
+		k := c07Key{l.name, l.hash}
+		e := note.Signature{Name: l.name, Hash: l.hash, Base64: c07B64(l)}
+		if known(k) {
+			if seenK[k] {
+				continue
+			}
+			seenK[k] = true
+			if !good(l) {
+				return "invalidsig", nil, nil, k
+			}
+			wantV = append(wantV, e)
+		} else {
+			key := l.name + " " + e.Base64
+			if seenL[key] {
+				continue
+			}
+			seenL[key] = true
+			wantU = append(wantU, e)
+		}
+	}
+	if len(wantV) == 0 {
+		wantErr = "unverified"
+	}
+	return wantErr, wantV, wantU, bad
+}
+
+// c07RelayLine inserts, at a random position (before or after the original), a copy of one of the lines under
+// another name: same key hash, same signature bytes, hence the same base64 field. pick proposes names.
+func c07RelayLine(r *Rand, lines []c07BLine, pick func() string) []c07BLine {
+	if len(lines) == 0 {
+		return lines
+	}
+	src := lines[r.Intn(len(lines))]
+	name := src.name
+	for try := 0; try < 8 && (name == src.name || !c07NameOK(name)); try++ {
+		name = pick()
+	}
+	if name == src.name || !c07NameOK(name) {
+		name = src.name + "x" // a valid name stays valid with an ASCII letter appended
+	}
+	at := r.Intn(len(lines) + 1)
+	out := append([]c07BLine{}, lines[:at]...)
+	out = append(out, c07BLine{name, src.hash, src.sig})
+	return append(out, lines[at:]...)
+}
+
 func oracleC07(g *Gen, n int) {
 	r := g.Rand
 	keys := c07RealKeys(g)
@@ -189,7 +245,7 @@ func oracleC07(g *Gen, n int) {
 		return
 	}
 	for it := 0; it < n; it++ {
-		switch r.Intn(10) {
+		switch r.Intn(12) {
 		case 0, 1, 2:
 			c07OracleRoundTrip(g, keys)
 		case 3, 4:
@@ -198,8 +254,10 @@ func oracleC07(g *Gen, n int) {
 			c07OracleBuilt(g)
 		case 8:
 			c07OracleStubSound(g)
-		default:
+		case 9:
 			c07OracleAmbiguous(g, keys)
+		default:
+			c07OracleRelay(g, keys)
 		}
 	}
 	if thorough {
@@ -465,6 +523,21 @@ func c07OracleBuilt(g *Gen) {
 		}
 		lines = append(lines, l)
 	}
+	// Input class "relayed blob" (added for r3-C07-b): the SAME base64 field (key hash + signature bytes) under
+	// DIFFERENT names, in either order. It was missing because every line here carried c07StubSig(own name, text)
+	// (or a private corruption of it), and repeats were whole-line copies: two lines with equal blobs always had
+	// equal names. A key's identity is (name, hash), so the renamed copy is another key's signature line and must be
+	// looked up, verified and listed on its own.
+	if r.Chance(35) {
+		for j := 1 + r.Intn(2); j > 0; j-- {
+			lines = c07RelayLine(r, lines, func() string {
+				if r.Chance(70) {
+					return u[r.Intn(len(u))].name
+				}
+				return r.Pick(c07Names)
+			})
+		}
+	}
 	var b strings.Builder
 	b.WriteString(text + "\n")
 	for _, l := range lines {
@@ -474,39 +547,9 @@ func c07OracleBuilt(g *Gen) {
 	spec := c07Join(specs)
 	op := "note.open " + hx(msg) + " L " + spec
 	// expectation
-	wantErr := ""
-	var wantV, wantU []note.Signature
-	seenK := map[c07Key]bool{}
-	seenL := map[string]bool{}
-	for i, l := range lines {
-		if i >= 100 { // the 101st signature line
-			wantErr = "malformed"
-			break
-		}
-		k := c07Key{l.name, l.hash}
-		e := note.Signature{Name: l.name, Hash: l.hash, Base64: c07B64(l)}
-		if known[k] {
-			if seenK[k] {
-				continue
-			}
-			seenK[k] = true
-			if !bytes.Equal(l.sig, c07StubSig(l.name, []byte(text))) {
-				wantErr = "invalidsig"
-				break
-			}
-			wantV = append(wantV, e)
-		} else {
-			key := l.name + " " + e.Base64
-			if seenL[key] {
-				continue
-			}
-			seenL[key] = true
-			wantU = append(wantU, e)
-		}
-	}
-	if wantErr == "" && len(wantV) == 0 {
-		wantErr = "unverified"
-	}
+	wantErr, wantV, wantU, _ := c07ExpectBlock(lines,
+		func(k c07Key) bool { return known[k] },
+		func(l c07BLine) bool { return bytes.Equal(l.sig, c07StubSig(l.name, []byte(text))) })
 	var log []c07Call
 	vs := c07ParseVerifiers(spec, &log)
 	nt, err := note.Open([]byte(msg), note.VerifierList(vs...))
@@ -594,6 +637,118 @@ func c07OracleAmbiguous(g *Gen, keys []c07Real) {
 		nt, err = note.Open(msg, note.VerifierList(k.verifier, other.verifier))
 		if err != nil || nt.Text != text {
 			g.Fail("Open failed with two distinct known keys", k.vkey+" "+other.vkey)
+		}
+	}
+}
+
+// c07OracleRelay: (B) and (R) with real Ed25519 keys on signature blocks in which a blob (key hash + signature
+// bytes) appears under more than one name: a cosigner/relay repeating another key's signature under its own name,
+// before or after the original, next to plain repeats and a corrupted signature. Added for r3-C07-b: Sign never
+// emits such blocks and the byte mutations never copy AND rename a line, so the real-key cases only ever saw
+// equal blobs under equal names. Expected outcome from the property text (c07ExpectBlock).
+func c07OracleRelay(g *Gen, keys []c07Real) {
+	r := g.Rand
+	text := c07GoodText(r)
+	if !c07ValidText(text) {
+		return
+	}
+	g.Case("relay")
+	// signers: 1-3 distinct keys; known: distinct keys, mostly signers (so that the renamed copy meets a known key)
+	var S []c07Real
+	inS := map[string]bool{}
+	for i := 1 + r.Intn(3); i > 0; i-- {
+		k := keys[r.Intn(len(keys))]
+		if !inS[k.vkey] {
+			inS[k.vkey] = true
+			S = append(S, k)
+		}
+	}
+	var K []c07Real
+	inK := map[string]bool{}
+	for _, k := range append(append([]c07Real{}, S...), c07Subset(r, keys, 2)...) {
+		if !inK[k.vkey] && r.Chance(65) {
+			inK[k.vkey] = true
+			K = append(K, k)
+		}
+	}
+	var vs []note.Verifier
+	var vkeys []string
+	byKey := map[c07Key]note.Verifier{}
+	for _, k := range K {
+		vs = append(vs, k.verifier)
+		vkeys = append(vkeys, k.vkey)
+		byKey[c07Key{k.name, k.verifier.KeyHash()}] = k.verifier
+	}
+	var lines []c07BLine
+	for _, s := range S {
+		sig, err := s.signer.Sign([]byte(text))
+		if err != nil {
+			g.Fail("real signer failed", s.vkey)
+			return
+		}
+		lines = append(lines, c07BLine{s.name, s.signer.KeyHash(), sig})
+	}
+	if r.Chance(30) { // a bad signature (of a known or of an unknown key)
+		i := r.Intn(len(lines))
+		bad := append([]byte(nil), lines[i].sig...)
+		if r.Chance(50) {
+			bad = make([]byte, len(bad))
+		} else {
+			bad[r.Intn(len(bad))] ^= byte(1 << uint(r.Intn(8)))
+		}
+		lines[i].sig = bad
+	}
+	for j := 1 + r.Intn(2); j > 0; j-- {
+		lines = c07RelayLine(r, lines, func() string {
+			switch r.Intn(3) {
+			case 0:
+				return keys[r.Intn(len(keys))].name
+			case 1:
+				return S[r.Intn(len(S))].name
+			}
+			return r.Pick(c07Names)
+		})
+	}
+	if r.Chance(25) { // and a plain repeat
+		at := r.Intn(len(lines) + 1)
+		l := lines[r.Intn(len(lines))]
+		lines = append(append(append([]c07BLine{}, lines[:at]...), l), lines[at:]...)
+	}
+	var b strings.Builder
+	b.WriteString(text + "\n")
+	for _, l := range lines {
+		b.WriteString(c07SigLine(l.name, l.hash, l.sig))
+	}
+	msg := b.String()
+	info := fmt.Sprintf("msg=%s known=%s", hx(msg), strings.Join(vkeys, " "))
+	wantErr, wantV, wantU, badKey := c07ExpectBlock(lines,
+		func(k c07Key) bool { return byKey[k] != nil },
+		func(l c07BLine) bool { return byKey[c07Key{l.name, l.hash}].Verify([]byte(text), l.sig) })
+	var log []c07Call
+	wvs := c07Wrap(vs, &log)
+	nt, err := note.Open([]byte(msg), note.VerifierList(wvs...))
+	c07CheckSound(g, []byte(msg), wvs, nt, err, log, info)
+	got := c07ShowOpen(nt, err)
+	switch wantErr {
+	case "":
+		if err != nil {
+			g.Fail("well-formed message whose known keys all verify does not open", info+" got="+got)
+		} else if nt.Text != text || !c07SigEq(nt.Sigs, wantV) || !c07SigEq(nt.UnverifiedSigs, wantU) {
+			g.Fail("wrong text or verified/unverified partition", info+" got="+got)
+		}
+	case "invalidsig":
+		var ie *note.InvalidSignatureError
+		if err == nil {
+			g.Fail("a known key with a bad signature did not make Open fail", info+" got="+got)
+		} else if !errors.As(err, &ie) || ie.Name != badKey.name || ie.Hash != badKey.hash {
+			g.Fail("bad signature of a known key not reported as InvalidSignatureError for that key", info+" got="+got)
+		}
+	case "unverified":
+		var ue *note.UnverifiedNoteError
+		if !errors.As(err, &ue) {
+			g.Fail("message with no known signature: expected UnverifiedNoteError", info+" got="+got)
+		} else if ue.Note.Text != text || !c07SigEq(ue.Note.UnverifiedSigs, wantU) || len(ue.Note.Sigs) != 0 {
+			g.Fail("UnverifiedNoteError carries the wrong note", info+" got="+got)
 		}
 	}
 }
